@@ -6,6 +6,8 @@
 // NOTE: `World` is never constructed here; callbacks that take `&mut World` are not invoked in K1.
 
 #[kani::proof]
+#[kani::stub(core::any::TypeId::of, crate::vh::stub_typeid_of)]
+#[kani::stub(<core::any::TypeId as crate::vh::PEq>::eq, crate::vh::stub_typeid_eq)]
 fn syscmd_storage_take_insert()
 {
     let cb = SystemCommandCallback::with(|_w: &mut World, _c: SystemCommandCleanup| {});
